@@ -43,7 +43,7 @@ func c20GoTypes() []c20GoType {
 }
 
 var (
-	c20APITags  = []string{"attr", "rel", "rel,u", "rel,u,inv", "", "rel,", "rel,a,b,c", "other", "attr,x", "rel,u,"}
+	c20APITags  = []string{"attr", "rel", "rel,u", "other", "", "rel,u,inv", "rel,", "rel,a,b,c", "attr,x", "rel,u,"}
 	c20JSONTags = []string{"a", "b", "", "id"}
 	c20IDs      = []string{"string+tags", "absent", "no-api-tag", "json-not-id", "no-json-tag", "int+tags", "string+tags+dash"}
 )
